@@ -24,10 +24,12 @@ def gen(family, maxshort):
     cfg = 'CONSTANTS FAMILY = "%s" MAXSHORT = %d\nINIT Init\nNEXT Next\nINVARIANT Emit\nCHECK_DEADLOCK FALSE\n' % (family, maxshort)
     key = tlc._sha(cfg, *tlc.spec_deps('WireTlv'))
     os.makedirs(CACHE, exist_ok=True)
-    cp = os.path.join(CACHE, 'tlv_%s_%s.json' % (family, key))
+    tag = tlc.spec_tag('WireTlv')
+    cp = os.path.join(CACHE, 'tlv_%s_%s_%s.json' % (family, tag, key))
     if os.path.exists(cp):
         with open(cp) as fh:
             return json.load(fh)
+    tlc.prune('tlv_%s' % family, tag)
     st, text = tlc.run('WireTlv', cfg, timeout=3000)
     if not st.get('completed'):
         raise tlc.TlcError('WireTlv(%s) failed:\n%s' % (family, text[-2000:]))
@@ -54,12 +56,10 @@ def _mutants(args):
     import wire
     rnd = random.Random(seed)
     seeds = []
+    import check_codec
     for fam in ('upd', 'comm', 'updap'):
-        p = [f for f in os.listdir(CACHE) if f.startswith('vec_%s_' % fam)] if os.path.isdir(CACHE) else []
-        for f in p[:1]:
-            with open(os.path.join(CACHE, f)) as fh:
-                for v in json.load(fh)['vecs'][::7]:
-                    seeds.append(bytes(v['b'])[19:])
+        for v in check_codec.gen_vectors(fam)['vecs'][::7]:
+            seeds.append(bytes(v['b'])[19:])
     lits = scenarios.test_literals(scenarios.world.REPO)
     jobs = []
     for lit in lits:
